@@ -5,6 +5,8 @@ import (
 	"reflect"
 	"strings"
 	"testing"
+	"testing/synctest"
+	"time"
 
 	"github.com/projectcalico/calico/felix/calc"
 	"github.com/projectcalico/calico/felix/config"
@@ -18,7 +20,10 @@ import (
 )
 
 func TestSim(t *testing.T) {
-	core.Main(t, "calc", []string{"C01", "C02", "C03", "C05"}, run)
+	core.Main(t, "calc", []string{"C01", "C02", "C03", "C05"}, func(r *core.R) {
+		// always inside a bubble: the asynchronous mode needs the fake clock, the synchronous one does not mind
+		synctest.Test(t, func(t *testing.T) { run(r) })
+	})
 }
 
 // felix is one instance of the real pipeline plus the model dataplane it feeds.
@@ -30,10 +35,12 @@ type felix struct {
 	dp     *modelDP
 	inSync bool
 	held   map[string]bool // keys this instance has been given a value for (to choose New vs Updated)
+	r      *core.R
+	async  *calc.AsyncCalcGraph // non-nil: asynchronous mode (real graph goroutine, ticker-driven flushes)
 }
 
 func newFelix(r *core.R, name string, monitor bool) *felix {
-	f := &felix{held: map[string]bool{}}
+	f := &felix{held: map[string]bool{}, r: r}
 	conf := config.New()
 	conf.FelixHostname = localHost
 	conf.Encapsulation = config.Encapsulation{VXLANEnabled: true, IPIPEnabled: true}
@@ -54,17 +61,75 @@ func (dpConfig) RawValues() map[string]string                              { ret
 func (dpConfig) ToConfigUpdate() *proto.ConfigUpdate                       { return &proto.ConfigUpdate{} }
 
 func (f *felix) flush() {
+	if f.async != nil {
+		// Asynchronous mode: flushes are driven by the graph's own leaky-bucket ticker; all the
+		// harness can do is let simulated time pass.
+		f.asyncSettle(f.r.Src.Range(0, 6, "async_wait") * 7)
+		return
+	}
 	f.dp.startFlush()
 	f.graph.Flush()
 	f.seq.Flush()
 	f.dp.endFlush()
 }
 
-func (f *felix) deliver(ups []api.Update) { f.vf.OnUpdates(ups) }
+func (f *felix) deliver(ups []api.Update) {
+	f.vf.OnUpdates(ups)
+	if f.async != nil {
+		synctest.Wait()
+	}
+}
 
 func (f *felix) sendInSync() {
 	f.inSync = true
 	f.vf.OnStatusUpdated(api.InSync)
+	if f.async != nil {
+		synctest.Wait()
+	}
+}
+
+// asyncSettle lets ms milliseconds of simulated time pass and waits for the graph goroutine and the
+// output consumer to block again.
+func (f *felix) asyncSettle(ms int) {
+	if ms > 0 {
+		time.Sleep(time.Duration(ms) * time.Millisecond)
+		f.r.AddSimTime(time.Duration(ms) * time.Millisecond)
+	}
+	synctest.Wait()
+}
+
+// newAsyncFelix runs the real AsyncCalcGraph goroutine (input channel, leaky-bucket flush ticker, blocking
+// output channel) inside the bubble.  The output consumer stalls according to a plan drawn up front, so that
+// every draw is made by the harness goroutine.
+func newAsyncFelix(r *core.R, name string, monitor bool) *felix {
+	f := &felix{held: map[string]bool{}, r: r}
+	conf := config.New()
+	conf.FelixHostname = localHost
+	conf.Encapsulation = config.Encapsulation{VXLANEnabled: true, IPIPEnabled: true}
+	f.conf = conf
+	f.dp = newModelDP(r, name, monitor, &f.inSync)
+	f.dp.noFlushBoundaries = true
+	out := make(chan any)
+	stallAt := map[int]time.Duration{}
+	for i, n := 0, r.Src.Intn(6, "async_stalls"); i < n; i++ {
+		stallAt[r.Src.Intn(400, "async_stall_at")] = time.Duration(r.Src.Range(1, 40, "async_stall_ms")*5) * time.Millisecond
+	}
+	f.async = calc.NewAsyncCalcGraph(conf, []chan<- any{out}, nil, calc.NewLookupsCache())
+	f.vf = calc.NewValidationFilter(f.async, conf)
+	go func() {
+		n := 0
+		for ev := range out {
+			if d, ok := stallAt[n]; ok {
+				r.Fault("slow_dataplane_consumer")
+				time.Sleep(d) // back-pressure: the graph goroutine blocks on the output channel meanwhile
+			}
+			n++
+			f.dp.OnEvent(ev)
+		}
+	}()
+	f.async.Start()
+	synctest.Wait()
+	return f
 }
 
 // mkUpdate builds the syncer update for entity e at variant index vi (0 = absent).
@@ -108,8 +173,8 @@ func confirmInvalid(r *core.R, e *entity, v variant) {
 }
 
 func run(r *core.R) {
-	r.FaultDecl("reorder_across_keys", "duplicate", "coalesced_versions", "revert_to_older", "spurious_delete", "invalid_version", "batched_updates", "early_flush", "updates_after_insync")
-	r.ProbeDecl("flushes", "insync_mid_history", "final_state_nonempty", "ipsets_present", "routes_present", "vteps_present", "policies_active", "profiles_active", "endpoints_present", "invalid_latest")
+	r.FaultDecl("slow_dataplane_consumer", "reorder_across_keys", "duplicate", "coalesced_versions", "revert_to_older", "spurious_delete", "invalid_version", "batched_updates", "early_flush", "updates_after_insync")
+	r.ProbeDecl("async_mode_runs", "flushes", "insync_mid_history", "final_state_nonempty", "ipsets_present", "routes_present", "vteps_present", "policies_active", "profiles_active", "endpoints_present", "invalid_latest")
 	src := r.Src
 	u := newUniverse(r)
 	for _, e := range u.ents {
@@ -119,7 +184,15 @@ func run(r *core.R) {
 			}
 		}
 	}
-	main := newFelix(r, "main", r.Armed("C02"))
+	asyncMode := src.Chance(300, "async_mode")
+	r.Cfg("async_mode", asyncMode)
+	var main *felix
+	if asyncMode {
+		r.Probe("async_mode_runs")
+		main = newAsyncFelix(r, "main", r.Armed("C02"))
+	} else {
+		main = newFelix(r, "main", r.Armed("C02"))
+	}
 
 	// model datastore: per entity the history of variant indexes written; feed: what has been delivered
 	n := len(u.ents)
@@ -285,6 +358,14 @@ func run(r *core.R) {
 	}
 	main.flush()
 	r.Probe("flushes")
+	if main.async != nil {
+		for i := 0; i < 40; i++ {
+			main.asyncSettle(50)
+		}
+		if !main.dp.inSync {
+			r.Violation("insync_never_reported", "asynchronous graph: datastore in-sync was delivered and 2 s of simulated time passed, but in-sync was never emitted")
+		}
+	}
 
 	// ---- C01: a freshly started Felix fed only the latest state must describe the same dataplane
 	final := map[string]int{}
